@@ -5,6 +5,7 @@ package main
 
 import (
 	"fmt"
+	"go/token"
 	"sort"
 	"strconv"
 	"strings"
@@ -90,6 +91,7 @@ type Exec struct {
 	xdiff       int
 	lastPropSMT string
 	ttCache     map[string][4]uint64
+	forkSites   map[token.Pos]int
 }
 
 func (e *Exec) resetPath(it WorkItem) {
@@ -506,6 +508,9 @@ func (e *Exec) decide(c *Term) bool {
 	switch res {
 	case Sat:
 		e.st.FeasSat++
+		if e.forkSites != nil {
+			e.forkSites[e.in.lastPos]++
+		}
 		e.emit(Decision{K: 'b', V: b2u(!mv)}, m2)
 	case Unsat:
 		e.st.FeasUnsat++
